@@ -146,6 +146,8 @@ func Classes(m *Module) map[string]bool {
 				out[FeatSelectT] = true
 			case OpCallIndirect:
 				out[FeatCallIndirect] = true
+			case OpMemoryInit:
+				out[FeatMemoryInit] = true
 			}
 		})
 	}
